@@ -617,13 +617,7 @@ func (h *H) monitors(cfg config, r result, in lib.T) {
 		if completed && t.r != fin.r {
 			// was the sending PipeTo's Load between the CAS and the assignment?
 			why := "other"
-			casAt := -1
-			for j, st := range r.trace {
-				s := st.Snap.(snap)
-				if labelCode(st.Label) == 8 && s.visible && s.closed && casAt < 0 {
-					casAt = j
-				}
-			}
+			casAt := idx(8, 0) // the first CAS is the one that wins
 			asgAt := idx(9, 0)
 			if a := idx(10, 0); asgAt < 0 || (a >= 0 && a < asgAt) {
 				asgAt = a
